@@ -44,9 +44,9 @@ CLAIMS = {
         "technique": "Lean 4 proofs (definitional + constructor theorem); differential check of sum(k)/softmax against the specification",
     },
     "C08": {
-        "text": "Proved: allocation only appends a buffer (C08_alloc), a reshaped view adds none (C08_view), a backward pass with its accumulation touches no buffer and no handle (C08_backward), gradient read/clear/set touch no buffer (C08_setGrad), gather/drain/update of the optimizer only allocate (C08_gather, C08_drain, C08_update_fresh), and a handle denotes the same dims and values in any state that extends the buffers (C08_handle_stable). PARTIAL: the lift to every command of the language (one theorem over `step`) is not yet stated. On every run the harness keeps a bitwise copy of every live handle taken when it was bound and compares all of them after every command of random histories (ops, passes, gradient fetch/clear/set, optimizer and model updates, drops) - an oracle on the implementation that needs no model." + TIE,
+        "text": "Proved in full on the model: for EVERY command of the language (construction, every forward operation, flag setters, clone/drop/re-bind, backward with its accumulation, gradient fetch/clear/set, optimizer and model updates, layer/model forward, ...) and every state, every buffer that existed before still exists with the same content (C08_step, by cases over all 66 commands via frame lemmas for each handle-level operation), hence after ANY history (C08_history, induction over the command list); a handle denotes a function of its dimensions and its buffer's content only, so every valid handle - live name, clone, reshaped view, operand recorded in a graph, previously fetched gradient - denotes the same dims and values after any history (C08_handle_stable, C08_immutable); update replaces parameters by new arrays and leaves old buffers alone (C08_update_fresh); views add no buffer (C08_view). On every run the harness keeps a bitwise copy of every live handle taken when it was bound and compares all of them after every command of random histories incl. views, clones, fetched gradients, seeds passed as clones, optimizer updates - an oracle on the implementation that needs no model and is the only decisive observable of this check." + TIE,
         "note": COMMON_NOTE + " Safe Rust's aliasing rules make 'append-only buffers' faithful; gradient-cell buffer sharing is observed by the harness, not modelled.",
-        "technique": "Lean 4 frame lemmas over the heap model + implementation-side bitwise shadow-copy oracle over random histories",
+        "technique": "Lean 4 proof: every command only extends the buffer array (case analysis over the command language + induction over histories); implementation-side bitwise shadow-copy oracle",
     },
     "C09": {
         "text": "Proved: the iff rule for every element-wise and unary operation and for matmul including its additive term (result tracked iff some operand tracked; an untracked result stores no operand) (C09_iff_ewise, C09_iff_unary, C09_iff_matmul); a completed pass changes gradient cells only at nodes reachable from the root through operands that were tracked when used - nothing below an untracked stored operand (C09_only); the pass leaves the name environment and every recorded node, hence every flag, unchanged (C09_flags_kept); a flag setter rebinds one name only (C09_clone_local). Every flag assignment (6 ways of setting) of every operation, untracked intermediates, start/stop return values before and after passes, stored-operand flags (probe hook) and plainness of fetched gradients are compared on every run." + TIE,
